@@ -11,6 +11,7 @@ id="$pid-${DEST_I:-$i}"
 dest=/verif/seeded/$id
 wt=/tmp/vseed_$id
 [ -f "$src/SEED$i.diff" ] || { echo "no $src/SEED$i.diff"; exit 2; }
+[ -e "$dest" ] && [ -z "${FORCE:-}" ] && { echo "SEED $id: $dest exists already (choose another DEST_I or set FORCE=1)"; exit 2; }
 git -C /repo worktree remove --force "$wt" 2>/dev/null
 git -C /repo worktree add -q "$wt" HEAD || exit 2
 ( cd "$wt" && git apply "$src/SEED$i.diff" ) || { echo "SEED $id: patch does not apply"; git -C /repo worktree remove --force "$wt"; exit 2; }
